@@ -36,6 +36,14 @@ type RouteItem struct {
 	// exchanged, both ends closed), and the judged pair's first call is issued this long after that earlier
 	// pair's dial
 	ReuseAfterMs int `json:"reuseAfterMs,omitempty"`
+	// LateReadMs (mux): a one-way transfer: the dialler writes its frame and closes its end at once; the
+	// acceptor starts reading this long after it accepted and must still get the whole frame, then EOF
+	LateReadMs int `json:"lateReadMs,omitempty"`
+	// CallbackShape (grpc, no mux): the id NUMBER is first used in the other direction -- the dialling side
+	// accepts and serves it, the accepting side dials that server and is done -- then the judged pair is
+	// established accept-first, and between its accept and its dial the dialling side stops its own server
+	// (and so closes its own listener) of that number
+	CallbackShape bool `json:"callbackShape,omitempty"`
 	// HoldAtGotInfoMs (grpc, no mux): the Dial is held this long between receiving the listener's address and
 	// connecting to it (hook point grpcbroker.dial.gotInfo; a slow address translator does the same)
 	HoldAtGotInfoMs int `json:"holdAtGotInfoMs,omitempty"`
